@@ -224,11 +224,48 @@ impl C13 {
         let hdr_reported = respell_deep(&hdr, &mut t);
         let target = respell_deep("final", &mut t);
         let mid_target = respell_deep(&mid, &mut t);
+        // a path may also be put together from variables, the pieces meeting anywhere (between two separators, say)
+        let mut vars = String::new();
+        let mut nvars = 0;
+        let mut assembled = false;
+        let mut assemble = |p: &str, t: &mut Tape| -> String {
+            let mode = t.weighted(&[4, 1, 1, 1]);
+            let mut cuts: Vec<usize> = vec![];
+            for (i, _) in p.char_indices().skip(1) {
+                cuts.push(i);
+                let b = p.as_bytes();
+                if b[i] == b'/' || b[i - 1] == b'/' || b[i] == b'.' {
+                    cuts.push(i);
+                    cuts.push(i);
+                }
+            }
+            if mode == 0 || cuts.is_empty() {
+                return esc(p);
+            }
+            assembled = true;
+            let at = cuts[t.below(cuts.len())];
+            let (a, b) = p.split_at(at);
+            let mut var = |val: &str| {
+                nvars += 1;
+                vars.push_str(&format!("pv{} = {}\n", nvars, val));
+                format!("${{pv{}}}", nvars)
+            };
+            match mode {
+                1 => format!("{}{}", var(a), esc(b)),
+                2 => format!("{}{}", esc(a), var(b)),
+                _ => {
+                    let x = var(a);
+                    let y = var(b);
+                    format!("{}{}", x, y)
+                }
+            }
+        };
+        let mid_text = assemble(&mid, &mut t);
+        let mid_in_text = assemble(&mid_in, &mut t);
         // manifest written by hand so that the consumer uses another spelling than the producer
         let manifest = format!(
-            "rule r0\n  command = cmd0v0 $in -- $out\nrule r1\n  command = cmd1v0 $in -- $out\n  depfile = final.d\nbuild {}: r0 s0\nbuild final: r1 {}\n",
-            esc(&mid),
-            esc(&mid_in)
+            "{}rule r0\n  command = cmd0v0 $in -- $out\nrule r1\n  command = cmd1v0 $in -- $out\n  depfile = final.d\nbuild {}: r0 s0\nbuild final: r1 {}\n",
+            vars, mid_text, mid_in_text
         );
         let s0 = Step { uid: 0, outs: vec![mid.clone()], nexp: 1, ins: vec!["s0".into()], imp: vec![], oo: vec![], val: vec![], phony: false, ver: 0, pool: None, rsp: None, deps: 0, restat: false, regen: false, subgen: false };
         let s1 = Step { uid: 1, outs: vec!["final".into()], nexp: 1, ins: vec![mid.clone()], imp: vec![], oo: vec![], val: vec![], phony: false, ver: 0, pool: None, rsp: None, deps: 1, restat: false, regen: false, subgen: false };
@@ -308,6 +345,9 @@ impl C13 {
             }
         }
         out.nontrivial = mid_in != mid || hdr_reported != hdr;
+        if assembled {
+            out.classes.push("path-assembled-from-variables".into());
+        }
         out.fp = fnv_str(&format!("{}|{}|{}", manifest, hdr_reported, mid_target));
         out.desc = json!({"manifest": manifest, "header_reported_as": hdr_reported, "header": hdr, "history": trace});
         let _ = std::env::set_current_dir("/");
